@@ -1,6 +1,7 @@
 \* repaired design (all switches TRUE), exhaustive, larger menus: three block contents, three
 \* filters, chunk sizes {1, 100}, scan limits {0, 1}; reorgs across two window boundaries (W = 4,
 \* blocks 2..7), cache warming, up to two graceful stops
+\* measured: 14 198 distinct / 219 842 generated states, depth 12
 CONSTANTS
   W = 4
   Base = 2
